@@ -126,6 +126,29 @@ def path_ops_act_segmentwise_and_keep_joints(c, kinds, op):
         c.ensures('joint-%d->%d-still-coincides%s' % (i, j, '(closing)' if j == 0 else ''), ops.Implies(was, now))
 
 
+@contract('C10', 'path.transform_segments_together', params=[{'kinds': 'LQ', 'op': o, '_no_bounded': True} for o in ('translated', 'rotated', 'scaled_uniform', 'transform')], level='per-shape')
+def path_ops_return_a_consistent_path_whatever_was_cached(c, kinds, op):
+    """the transformed path is a Path in a consistent state (C16's invariant) even when the
+    original's length caches were warm: whatever it carries is about ITS segments, so that
+    path-level point(T) of the result commutes too"""
+    from contracts.c16 import check_inv
+    path, segs, pts = mkpath(c, kinds)
+    c.callm(path, '_calc_lengths')
+    if op == 'translated':
+        r = c.callm(path, 'translated', c.cplx('z'))
+    elif op == 'rotated':
+        r = c.callm(path, 'rotated', c.real('degs'), c.cplx('o'))
+    elif op == 'scaled_uniform':
+        r = c.callm(path, 'scaled', c.real('sx'), origin=c.cplx('o'))
+    else:
+        M = [[c.real('m%d%d' % (i, j)) for j in range(3)] for i in range(2)]
+        c.assume(ops.Not(ops.And(ops.eq(M[0][0], 1), ops.eq(M[0][1], 0), ops.eq(M[0][2], 0),
+                                 ops.eq(M[1][0], 0), ops.eq(M[1][1], 1), ops.eq(M[1][2], 0))))
+        r = c.call('path.transform', path, c.matrix(M + [[0, 0, 1]]))
+    c.ensures('a-new-Path-object', r is not path)
+    check_inv(c, r, list(c.get(r, '_segments')), op)
+
+
 # ---- "joints that coincided exactly before still coincide exactly after": float ==, decided in
 # EUF mode (DESIGN.md 1.8b): arithmetic operators are uninterpreted, so an equality proved here
 # holds bit for bit; equalities that need algebra are not provable and are reported.
